@@ -33,7 +33,7 @@ def run(ctx: Ctx) -> dict:
     model(ctx)
     table = ctx.table(env)
     rng = random.Random(ctx.seed + 3)
-    n = 2 if ctx.quick else 12
+    n = 2 if ctx.quick else 40
     ops = []
     seeds = 0
     import c06
